@@ -19,7 +19,10 @@ REQUIRED_THEOREMS = ["Clikit.Props.C04." + n for n in (
     "escape_only_by_render", "attempt_status_le", "run_escapes_iff", "run_contained_exact", "exception_reported_exact",
     "attempt_calls", "conclude_calls",
     # end to end, on the composed model of the default application (Model/App.lean, tied by c09.app_run)
-    "run_shape", "app_runs_selected_handler", "app_at_most_one_handler", "app_status_range")]
+    "run_shape", "app_runs_selected_handler", "app_at_most_one_handler", "app_status_range",
+    # bridge to the event dispatcher model of C12 (Model/RunListeners.lean, tied by c04.run_regs)
+    "listeners_called_in_priority_order", "registration_order_irrelevant_across_priorities",
+    "registration_swap_across_priorities", "other_events_irrelevant", "handled_does_not_stop")]
 TECHNIQUE = ("Lean 4 theorems on a model of ConsoleApplication.run/Command.handle whose status normalisation is regenerated "
              "from Command.handle on every run + exhaustive outcome x listener x verbosity table against the real run()")
 LEVEL_TEXT = ("Proved in Lean for ALL handler results, exceptions and pre-handle listener lists: the status is 0 iff the value "
@@ -39,20 +42,42 @@ LEVEL_TEXT = ("Proved in Lean for ALL handler results, exceptions and pre-handle
               "of its outcome (app_runs_selected_handler); at most one handler runs in any run, the one resolve_command "
               "selected (app_at_most_one_handler); every status is <= 255, run() does not return exactly when an exception "
               "escaped, which only a failing report renderer causes (app_status_range, run_shape). The composed model is compared "
-              "with the real run of the default application on every generated case of C09 (entry c09.app_run).")
+              "with the real run of the default application on every generated case of C09 (entry c09.app_run). "
+              "BRIDGE TO THE EVENT DISPATCHER (C12): the list of pre-handle listeners the run model consumes is BUILT from a "
+              "registration history (event name, priority, listener) by running the dispatcher model of C12 "
+              "(RunListeners.runWithDispatcher); proved for ALL histories: the dispatcher model's dispatch(PRE_HANDLE) calls "
+              "exactly the registrations the run model's dispatchPre consults, in the same order - the prefix of C12's "
+              "specOrder through the first listener that stops propagation or raises "
+              "(listeners_called_in_priority_order, stated against C12.dispatch_spec/callSeq); that order is the stable "
+              "descending sort of the PRE_HANDLE registrations, so permuting registrations of different priorities never "
+              "changes the run while equal priorities keep registration order, observably "
+              "(registration_order_irrelevant_across_priorities, registration_swap_across_priorities + a counterexample for "
+              "a tie); registrations for other events never matter (other_events_irrelevant); a listener that marks the "
+              "command handled without stopping propagation does not keep later listeners from running, the LAST status "
+              "code set wins, and the handler is not invoked (handled_does_not_stop). Tied to the real run by c04.run_regs: "
+              "shuffled registration orders with explicit, also equal and non-positive, priorities and registrations for "
+              "other events on the real configuration; status, report, handler calls and the listener call log are compared.")
 LEVEL_NOTE = ("Trusted: Lean kernel + standard axioms; the hand-written run model; tools/genparts/c04.py; harness (abstraction "
               "of Python values to truthiness/int()). Not modelled: BaseExceptions other than KeyboardInterrupt (SystemExit "
               "raised by a handler propagates by design), OS signal delivery, the trace renderer itself (C20).")
 RULE = ("product of 25 handler outcomes (return values None/False/0/-3/300/True/'12'/'abc'/0.5/nan/''/[]/255/256/1 and raised "
         "exceptions: library and foreign types, KeyboardInterrupt, code attribute, chained cause, no-source code, messages with "
         "balanced/opening/closing/mismatched tags, multi-line, non-ASCII) x 9 listener configurations x 4 verbosities x "
-        "ANSI/plain x 4 resolutions; quick = a deterministic slice + random sample; non-trivial = the outcome is not "
-        "'return None'; distinct = the case")
+        "ANSI/plain x 4 resolutions; quick = a deterministic slice + random sample; plus registration histories: 14 listener "
+        "lists (two and three listeners that handle with different codes, stop or fail in the middle) registered in "
+        "every/random order with priority patterns all-equal / descending / ascending / pairs of ties / random from "
+        "{-2,0,3,3,7}, interleaved with registrations for an event that is never dispatched (any behaviour, top priority) and "
+        "for PRE_RESOLVE (pass/stop), on the bare and the default configuration; non-trivial = the outcome is not "
+        "'return None' or the case has a registration history; distinct = the case")
 TRUSTED_BASE = [
     "Lean 4.33 kernel; axioms within propext, Classical.choice, Quot.sound (audited per theorem on every run)",
     "tools/genparts/c04.py: translation of the last statement of Command.handle (the clamp) and check of the guard before it",
     "lean/Clikit/Model/Run.lean: hand-written model of run/handle/_do_handle (modelled, not verified; tied by the correspondence)",
     "harness/props/c04.py, harness/c04_handlers.py: outcome table, listeners, abstraction of Python values",
+    "lean/Clikit/Model/RunListeners.lean: the encoding of a registration history for the dispatcher model of C12 (identity of a "
+    "callable = position in the history; the walk ends at a listener that stops propagation or raises) and the reading back of "
+    "the dispatcher's order (modelled, not verified; tied by c04.run_regs on every case: status, handler calls, listener call "
+    "log); lean/Clikit/Model/Dispatcher.lean is the model of C12 (tied by harness/props/c12.py)",
     "lean/Clikit/Model/App.lean: hand-written composition of the switches, resolver, parser, help-target and run models in the "
     "order of ConsoleApplication.run / DefaultApplicationConfig (modelled, not verified; tied by the differential runs of "
     "harness/props/c09.py through c09.app_run: status, selected command and args, handler invocations, help/version kind and "
@@ -97,6 +122,95 @@ ENCODINGS = [["ascii", "ascii"], ["utf-8", "ascii"], ["ascii", "utf-8"], ["latin
 LINES = [["cmd", "x"], ["nope"], ["cmd", "--unknown"], ["cmd", "x", "y", "z"]]
 
 
+# ---- registration histories (bridge to the dispatcher, C12): listener lists whose ORDER is observable
+_H = lambda v, stop=False: {"kind": "handled", "code": {"kind": "int", "v": v}, "stop": stop}   # noqa
+_P, _S = {"kind": "pass"}, {"kind": "stop"}
+_F = {"kind": "fail", "exc": {"type": "RuntimeError"}}
+_KI = {"kind": "fail", "exc": {"type": "KeyboardInterrupt"}}
+REG_LISTS = [[_H(3), _H(5)], [_H(3), _H(0)], [_H(3, True), _H(5)], [_H(3), _S, _H(5)], [_P, _F, _H(5)], [_H(4), _F],
+             [_S, _F], [_H(3), _H(5), _H(7)], [_P, _H(6), _P], [_H(3), _KI, _H(5, True)], [_P, _P], [_H(300), _H(2, True), _F],
+             [{"kind": "handled", "code": {"kind": "none"}, "stop": False}, _H(9)], [_H(3), _P, _H(5), _S]]
+REG_OUTCOMES = [{"ret": {"kind": "none"}}, {"ret": {"kind": "int", "v": 300}}, {"raise": {"type": "RuntimeError"}},
+                {"raise": {"type": "KeyboardInterrupt"}}]
+EVENT_NO = {"config": 0, "pre-handle": 1, "pre-resolve": 2, "custom.other": 3}     # names in the model (compared only)
+PRIO_POOL = [-2, 0, 3, 3, 7]
+
+
+def _prio_patterns(n, rng):
+    yield "equal", [4] * n
+    yield "desc", [10 - i for i in range(n)]
+    yield "asc", [i - 1 for i in range(n)]                 # ascending in registration order, including -1 and 0
+    if n >= 3:
+        yield "tie-first", [5, 5] + [1] * (n - 2)
+        yield "tie-last", [8] + [2] * (n - 1)
+    yield "random", [rng.choice(PRIO_POOL) for _ in range(n)]
+
+
+def _with_others(regs, listeners, rng):
+    """interleave registrations for other events: one that is never dispatched (any behaviour, top priority) and one
+    for PRE_RESOLVE (pass / stop only: it IS called, with a PreResolveEvent)"""
+    listeners = list(listeners)
+    regs = [dict(r) for r in regs]
+    for ev, l in (("custom.other", rng.choice([_F, _H(99, True), _S, _KI])), ("pre-resolve", rng.choice([_P, _S]))):
+        listeners.append(l)
+        regs.insert(rng.randrange(len(regs) + 1),
+                    {"l": len(listeners) - 1, "prio": rng.choice([99, 4, 3, 0, -5]), "event": ev})
+    return regs, listeners
+
+
+def _reg_cases(tier, rng):
+    k = 0
+    for ls in REG_LISTS:
+        n = len(ls)
+        perms = list(itertools.permutations(range(n)))
+        if tier == "quick" and len(perms) > 6:
+            perms = perms[:2] + rng.sample(perms[2:], 4)
+        for perm in perms:
+            for pat, prios in _prio_patterns(n, rng):
+                regs = [{"l": i, "prio": prios[j]} for j, i in enumerate(perm)]
+                variants = [(regs, ls)]
+                if pat in ("equal", "random", "tie-first"):
+                    variants.append(_with_others(regs, ls, rng))
+                for rg, lst in variants:
+                    outs = REG_OUTCOMES if tier != "quick" else [REG_OUTCOMES[k % 4], REG_OUTCOMES[(k + 1) % 4]]
+                    for out in outs:
+                        k += 1
+                        c = {"outcome": out, "listeners": lst, "regs": rg, "verbosity": 4 if k % 5 == 0 else 0,
+                             "ansi": False, "tokens": LINES[1] if k % 13 == 0 else LINES[0]}
+                        if k % 4 == 0:
+                            c["default_cfg"] = True
+                        yield c
+    # the listener configurations of the main table, registered in a random order with random priorities
+    for _ in range(150 if tier == "quick" else 2500):
+        ls = rng.choice([l for l in LISTENERS if l] + REG_LISTS)
+        order = list(range(len(ls)))
+        rng.shuffle(order)
+        regs = [{"l": i, "prio": rng.choice(PRIO_POOL)} for i in order]
+        lst = ls
+        if rng.random() < 0.4:
+            regs, lst = _with_others(regs, ls, rng)
+        c = {"outcome": rng.choice(OUTCOMES), "listeners": lst, "regs": regs, "verbosity": rng.choice(VERBOSITIES),
+             "ansi": rng.random() < 0.3, "tokens": LINES[0] if rng.random() < 0.85 else rng.choice(LINES)}
+        if rng.random() < 0.3:
+            c["default_cfg"] = True
+        yield c
+
+
+def _regs_of(case):
+    """the registration history of a case: (listener index, priority, event name) in registration order.  Cases without
+    an explicit history register their listeners for PRE_HANDLE in list order with priorities 10, 9, 8, ..."""
+    if "regs" in case:
+        return [(r["l"], r["prio"], r.get("event", "pre-handle")) for r in case["regs"]]
+    return [(i, 10 - i, "pre-handle") for i in range(len(case["listeners"]))]
+
+
+def _call_order(case):
+    """indices of the PRE_HANDLE listeners in the order the STATEMENT demands: descending priority, registration order
+    among equal priorities (Python's sorted is stable); for cases without a history this is the list order"""
+    pre = [(i, p) for (i, p, ev) in _regs_of(case) if ev == "pre-handle"]
+    return [i for (i, p) in sorted(pre, key=lambda t: -t[1])]
+
+
 def generate(tier, rng):
     full = list(itertools.product(range(len(OUTCOMES)), range(len(LISTENERS)), VERBOSITIES, (False, True),
                                   range(len(LINES))))
@@ -122,6 +236,10 @@ def generate(tier, rng):
         for enc in ENCODINGS:
             for v in ((0, 4) if tier == "quick" else VERBOSITIES):
                 yield {"outcome": out, "listeners": [], "verbosity": v, "ansi": False, "tokens": LINES[0], "enc": enc}
+    # ---- registration histories: the same listeners registered in another order, with explicit (also equal, zero and
+    # negative) priorities, and with registrations for other events in between
+    for c in _reg_cases(tier, rng):
+        yield c
 
 
 def exhaustive(tier):
@@ -148,6 +266,10 @@ def _app(case, io):
     c = cfg.create_command("cmd")
     c.add_argument("a", Argument.OPTIONAL)
     c.set_handler(H.Handler(case["outcome"]))
+    if "regs" in case:
+        for r in case["regs"]:                                                 # explicit history: any order, any event
+            cfg.add_event_listener(r.get("event", PRE_HANDLE), _listener(case["listeners"][r["l"]], r["l"]), r["prio"])
+        return ConsoleApplication(cfg)
     prio = 10
     for l in case["listeners"]:
         cfg.add_event_listener(PRE_HANDLE, _listener(l, 10 - prio), prio)      # index = position in the case's list
@@ -156,10 +278,16 @@ def _app(case, io):
 
 
 LISTENER_CALLS = []
+OTHER_CALLS = []        # calls made while dispatching another event than PRE_HANDLE: [event name, index]
 
 
 def _listener(l, index=None):
     def fn(event, name, dispatcher):
+        if name != "pre-handle":
+            OTHER_CALLS.append([name, index])
+            if l["kind"] == "stop":
+                event.stop_propagation()
+            return
         LISTENER_CALLS.append(index)
         if l["kind"] == "handled":
             event.handled(True)
@@ -193,6 +321,7 @@ def run_impl(case):
     io.set_verbosity(case["verbosity"])
     del H.CALLS[:]
     del LISTENER_CALLS[:]
+    del OTHER_CALLS[:]
     app = _app(case, io)
     try:
         status = app.run(ArgvArgs(["prog"] + case["tokens"]))
@@ -206,7 +335,8 @@ def run_impl(case):
     return {"status": status if (status is None or isinstance(status, int)) else repr(status), "escaped": escaped,
             "reported": bool(out.strip()), "calls": len(H.CALLS), "call_args": [c["arguments"] for c in H.CALLS],
             "status_type": type(status).__name__, "listener_calls": list(LISTENER_CALLS),
-            "shows_message": _shows_message(case, out)}
+            "shows_message": _shows_message(case, out),
+            **({"other_calls": [list(x) for x in OTHER_CALLS]} if "regs" in case else {})}
 
 
 def _shows_message(case, out):
@@ -241,32 +371,51 @@ def _resolution(tokens):
     return {"ki": False, "clikit": True, "tag": 50}
 
 
+def _listener_abs(l):
+    if l["kind"] == "handled":
+        return {"kind": "handled", "code": _ret_abs(l["code"]), "stop": l["stop"]}
+    if l["kind"] == "fail":
+        return {"kind": "fail", "exc": _exc_abs(l["exc"], 70)}
+    return {"kind": l["kind"]}
+
+
 def model_requests(case):
-    ls = []
-    for l in case["listeners"]:
-        if l["kind"] == "handled":
-            ls.append({"kind": "handled", "code": _ret_abs(l["code"]), "stop": l["stop"]})
-        elif l["kind"] == "fail":
-            ls.append({"kind": "fail", "exc": _exc_abs(l["exc"], 70)})
-        else:
-            ls.append({"kind": l["kind"]})
+    ls = [_listener_abs(l) for l in case["listeners"]]
     o = case["outcome"]
     h = {"ret": _ret_abs(o["ret"])} if "ret" in o else {"raise": _exc_abs(o["raise"], 1)}
     rq = {"m": "c04.run", "debug": case["verbosity"] == 4, "listeners": ls, "handler": h, "render_ok": True}
+    # the same run with the listeners given as the REGISTRATION HISTORY (event, priority, listener) the harness performs
+    # on the real configuration: the model orders them through the dispatcher model of C12
+    rr = {"m": "c04.run_regs", "debug": rq["debug"], "handler": h, "render_ok": True,
+          "regs": [{"event": EVENT_NO[ev], "prio": p, "listener": ls[i]} for (i, p, ev) in _regs_of(case)]}
     r = _resolution(case["tokens"])
     if r is not None:
         rq["resolve_error"] = r
-    return [rq]
+        rr["resolve_error"] = r
+    # a case with an explicit history has no calling-order list of its own: only the history is sent
+    return [rr] if "regs" in case else [rq, rr]
+
+
+_RUN_KEYS = ("status", "escaped", "reported", "calls")
 
 
 def model_obs(case, answers):
-    a = answers[0]
-    return {"status": a["status"], "escaped": a["escaped"] is not None, "reported": a["reported"], "calls": a["calls"]}
+    a, b = answers[0], answers[-1]
+    if b.get("pre_handle") != EVENT_NO["pre-handle"]:
+        raise AssertionError("the model's name of PRE_HANDLE is %r, the harness sends %r" % (b.get("pre_handle"),
+                                                                                           EVENT_NO["pre-handle"]))
+    regs = _regs_of(case)
+    return {"status": a["status"], "escaped": a["escaped"] is not None, "reported": a["reported"], "calls": a["calls"],
+            # positions in the history -> indices of the case's listeners
+            "listener_calls": [regs[k][0] for k in b["listener_calls"]],
+            # list-based and history-based model agree (cases that have both)
+            "history_agrees": all(a[k] == b[k] for k in _RUN_KEYS)}
 
 
 def impl_view(case, obs):
     return {"status": obs["status"], "escaped": obs["escaped"] is not None, "reported": obs["reported"],
-            "calls": obs["calls"]}
+            "calls": obs["calls"], "listener_calls": [i for i in obs.get("listener_calls", []) if i is not None],
+            "history_agrees": True}
 
 
 # ---- the statement -------------------------------------------------------------------------------
@@ -280,7 +429,8 @@ def oracle(case, obs):
     # which value / exception reaches the end of the run, by the statement
     handled = None
     failed = None
-    for l in case["listeners"]:
+    order = _call_order(case)        # priority order (= list order for the cases without an explicit history)
+    for l in (case["listeners"][i] for i in order):
         if l["kind"] == "fail":
             failed = l["exc"]
             break
@@ -294,13 +444,18 @@ def oracle(case, obs):
     # marking the command handled does not stop the others
     if resolved and "listener_calls" in obs:
         want_l = []
-        for i, l in enumerate(case["listeners"]):
+        for i in order:
+            l = case["listeners"][i]
             want_l.append(i)
             if l["kind"] in ("fail", "stop") or (l["kind"] == "handled" and l["stop"]):
                 break
         got_l = [i for i in obs["listener_calls"] if i is not None]
         if got_l != want_l:
-            return "pre-handle listeners called: %s, registered order up to the first stop: %s" % (got_l, want_l)
+            return "pre-handle listeners called: %s, priority order up to the first stop: %s" % (got_l, want_l)
+    # a listener registered for another event is called for that event only (and never for an event nobody dispatches)
+    for name, i in obs.get("other_calls", []):
+        if i is not None and (i, name) not in [(j, ev) for (j, p, ev) in _regs_of(case)]:
+            return "listener %d was called for event %r it is not registered for" % (i, name)
     if obs.get("shows_message") is False:
         return "the error report does not show the text of the exception"
     expect_calls = 1 if (resolved and handled is None and failed is None) else 0
@@ -343,7 +498,7 @@ def oracle(case, obs):
 
 def nontrivial_key(case, obs):
     import json
-    if case["outcome"] != {"ret": {"kind": "none"}}:
+    if case["outcome"] != {"ret": {"kind": "none"}} or "regs" in case:
         return json.dumps(case, sort_keys=True)
     return None
 
@@ -351,7 +506,12 @@ def nontrivial_key(case, obs):
 def bucket(case, obs):
     o = case["outcome"]
     k = ("ret:" + o["ret"]["kind"]) if "ret" in o else ("raise:" + o["raise"]["type"])
-    return "%s|status=%s|reported=%s|calls=%d" % (k, obs["status"], obs["reported"], obs["calls"])
+    b = "%s|status=%s|reported=%s|calls=%d" % (k, obs["status"], obs["reported"], obs["calls"])
+    if "regs" in case:
+        pr = [p for (i, p, ev) in _regs_of(case) if ev == "pre-handle"]
+        b += "|history:%s%s" % ("ties" if len(set(pr)) < len(pr) else "distinct",
+                                 "+other-events" if len(pr) < len(case["regs"]) else "")
+    return b
 
 
 def neighbours(case):
@@ -362,4 +522,17 @@ def neighbours(case):
     for l in LISTENERS:
         c = dict(case)
         c["listeners"] = l
+        c.pop("regs", None)
         yield c
+    if "regs" in case:
+        for k in range(len(case["regs"])):
+            for d in (-1, 1):                                   # move one priority: makes or breaks a tie
+                c = dict(case)
+                c["regs"] = [dict(r, prio=r["prio"] + d) if j == k else r for j, r in enumerate(case["regs"])]
+                yield c
+        for k in range(len(case["regs"]) - 1):                  # swap two neighbouring registrations
+            c = dict(case)
+            rg = list(case["regs"])
+            rg[k], rg[k + 1] = rg[k + 1], rg[k]
+            c["regs"] = rg
+            yield c
